@@ -70,6 +70,40 @@ func permuteBlocks(rng *core.Rand, blocks []caddyfile.ServerBlock) int {
 	return moved
 }
 
+// over20Routes: does some block of the text hold more than 20 directives? (Above 20 values
+// sort.SliceStable merges blocks instead of insertion-sorting; known finding.) Decided on the
+// parsed text: a site block with more than 20 segments of ordered directives, or a single
+// segment spanning more than 20 lines (an upper bound for its nested blocks).
+func over20Routes(text string) bool {
+	blocks, err := safeParse(text)
+	if err != nil {
+		return false
+	}
+	ordered := orderedSet()
+	for _, b := range blocks {
+		n := 0
+		for _, seg := range b.Segments {
+			if len(seg) == 0 {
+				continue
+			}
+			if ordered[seg.Directive()] {
+				n++
+			}
+			lines := map[int]bool{}
+			for _, t := range seg {
+				lines[t.Line] = true
+			}
+			if len(lines) > 22 {
+				return true
+			}
+		}
+		if n > 20 {
+			return true
+		}
+	}
+	return false
+}
+
 var groupRe = regexp.MustCompile(`"group":"group(\d+)"`)
 
 // canonGroups renames route groups by order of first appearance.
@@ -85,7 +119,7 @@ func canonGroups(js []byte) []byte {
 }
 
 // compareReordered evaluates the order-insensitivity clause on two results.
-func compareReordered(line string, a, b adaptRes, desc string, o *core.Outcome) {
+func compareReordered(line string, a, b adaptRes, over20 bool, desc string, o *core.Outcome) {
 	switch {
 	case b.panicked:
 		o.Failures = append(o.Failures, core.Failure{Case: line, Class: "adapter-panic", What: "adapter panicked on the reordered input: " + clip(b.panicMsg, 300) + "; " + desc})
@@ -101,7 +135,11 @@ func compareReordered(line string, a, b adaptRes, desc string, o *core.Outcome) 
 				What: "reordering directives of different kinds renames route groups (JSON equal up to a bijective renaming of group names): " + firstDiff(a.json, b.json) + "; " + desc})
 			return
 		}
-		o.Failures = append(o.Failures, core.Failure{Case: line, Class: "order-dependent-output",
+		cls := "order-dependent-output"
+		if over20 {
+			cls += ":over-20-routes"
+		}
+		o.Failures = append(o.Failures, core.Failure{Case: line, Class: cls,
 			What: "reordering directives of different kinds changed the JSON: " + firstDiff(a.json, b.json) + "; " + desc})
 	default:
 		o.Tags = append(o.Tags, "reorder:same")
@@ -137,7 +175,7 @@ func runPerm(line, text, seedF string) core.Outcome {
 	} else {
 		o.Tags = append(o.Tags, "perm:rejected")
 	}
-	compareReordered(line, a, b, fmt.Sprintf("seed %d moved %d segments of %q", seed, moved, clip(text, 500)), &o)
+	compareReordered(line, a, b, over20Routes(text), fmt.Sprintf("seed %d moved %d segments of %q", seed, moved, clip(text, 500)), &o)
 	return o
 }
 
@@ -155,9 +193,9 @@ func runEqv(line, ta, tb string) core.Outcome {
 	} else {
 		o.Tags = append(o.Tags, "eqv:rejected", errTag(a.err))
 	}
-	compareReordered(line, a, b, fmt.Sprintf("A=%q B=%q", clip(ta, 500), clip(tb, 500)), &o)
+	compareReordered(line, a, b, over20Routes(ta), fmt.Sprintf("A=%q B=%q", clip(ta, 500), clip(tb, 500)), &o)
 	if a.accepted() {
-		checkValid(line, ta, a.json, &o)
+		checkValid(line, ta, a.json, false, &o)
 	}
 	return o
 }
